@@ -19,6 +19,9 @@ import (
 	"math/big"
 	"os"
 	"path/filepath"
+	"strings"
+	"sync"
+	"sync/atomic"
 	"testing"
 
 	"github.com/cloudflare/circl/dh/csidh"
@@ -401,6 +404,23 @@ func restOfRound(t *rapid.T, tr *transcript) {
 		pkb, _ := pk.MarshalBinary()
 		skb, _ := sk.MarshalBinary()
 		tr.emit("sign/"+s.Name(), c1, [][]byte{seed, msg}, [][]byte{pkb, skb, sig, {b2b(ok), b2b(ok2)}})
+		if rapid.IntRange(0, 2).Draw(t, "sshared") == 0 {
+			nSig := rapid.IntRange(3, 8).Draw(t, "sn")
+			workers := rapid.IntRange(2, 4).Draw(t, "sw")
+			res := sharedRun(nSig, workers, func(i int) [][]byte {
+				m := append([]byte{byte(i)}, msg...)
+				sg := s.Sign(sk, m, nil)
+				return [][]byte{sg, {b2b(s.Verify(pk, m, sg, nil)), b2b(s.Verify(pk, msg, sig, nil))}}
+			}, func() {
+				_, _ = pk.MarshalBinary()
+				_, _ = sk.MarshalBinary()
+				_ = sk.Public()
+			})
+			pkb2, _ := pk.MarshalBinary()
+			skb2, _ := sk.MarshalBinary()
+			res = append(res, pkb2, skb2)
+			tr.emit("sign-shared/"+s.Name(), c1+"shared-key-pair", [][]byte{seed, msg, {byte(nSig), byte(workers)}}, res)
+		}
 		_ = sign.Scheme(s)
 	}
 	// ---- KEM schemes (Kyber, ML-KEM, Frodo, X-Wing, hybrids, HPKE DHKEMs)
@@ -468,6 +488,26 @@ func restOfRound(t *rapid.T, tr *transcript) {
 			}
 		}
 		tr.emit("kem/"+s.Name(), c1+c2+"tampered", [][]byte{seed, eseed, {byte(kpos), byte(kpos >> 8), byte(kbit)}}, [][]byte{pkb, skb, ct, ss, ss2, ss3, {b2b(err3 == nil)}}) // inputs are the drawn values only: the altered ciphertext derives from an output
+		// the same key pair used by several goroutines at once, one of them serialising it all the time: the
+		// back-ends differ in how they lay out key material, every one of them must leave a key it only reads alone
+		if rapid.IntRange(0, 2).Draw(t, "kshared") == 0 && !strings.HasPrefix(s.Name(), "FrodoKEM") {
+			nEnc := rapid.IntRange(4, 12).Draw(t, "kn")
+			workers := rapid.IntRange(2, 4).Draw(t, "kw")
+			res := sharedRun(nEnc, workers, func(i int) [][]byte {
+				es := make([]byte, s.EncapsulationSeedSize())
+				vlib.ExpandInto(es, le64(append(append([]byte{}, eseed...), 0, 0, 0, 0, 0, 0, 0, 0))+uint64(i)*0x9e3779b97f4a7c15)
+				c, k, e := s.EncapsulateDeterministically(pk, es)
+				k2, e2 := s.Decapsulate(sk, ct)
+				return [][]byte{c, k, k2, {b2b(e == nil), b2b(e2 == nil)}}
+			}, func() {
+				_, _ = pk.MarshalBinary()
+				_, _ = sk.MarshalBinary()
+			})
+			pkb2, _ := pk.MarshalBinary()
+			skb2, _ := sk.MarshalBinary()
+			res = append(res, pkb2, skb2)
+			tr.emit("kem-shared/"+s.Name(), c1+c2+"shared-key-pair", [][]byte{seed, eseed, {byte(nEnc), byte(workers)}}, res)
+		}
 		_ = kem.Scheme(s)
 	}
 	// ---- SIKE (slow: one in four rounds)
@@ -818,6 +858,39 @@ func restOfRound(t *rapid.T, tr *transcript) {
 		}
 		tr.emit("hpke/"+s.Name(), "", [][]byte{seed, pt}, [][]byte{enc, ct, pt2, sealer.Export([]byte("x"), 32)})
 	}
+}
+
+// sharedRun computes work(0..n-1) on `workers` goroutines while another goroutine calls bg in a loop;
+// the results are returned in index order, so they do not depend on the interleaving unless the code under test does.
+func sharedRun(n, workers int, work func(i int) [][]byte, bg func()) [][]byte {
+	out := make([][][]byte, n)
+	var stop atomic.Bool
+	var wgB, wgW sync.WaitGroup
+	wgB.Add(1)
+	go func() {
+		defer wgB.Done()
+		for !stop.Load() {
+			bg()
+		}
+	}()
+	for w := 0; w < workers; w++ {
+		w := w
+		wgW.Add(1)
+		go func() {
+			defer wgW.Done()
+			for i := w; i < n; i += workers {
+				out[i] = work(i)
+			}
+		}()
+	}
+	wgW.Wait()
+	stop.Store(true)
+	wgB.Wait()
+	var flat [][]byte
+	for _, o := range out {
+		flat = append(flat, o...)
+	}
+	return flat
 }
 
 func b2b(b bool) byte {
